@@ -60,6 +60,14 @@ def app_program(draw, failures=True, allow_misbehaving=True):
     prog["read_input"] = draw(st.sampled_from(["none", "none", "all", "some", "line"]))
     prog["lazy_start"] = mode in ("gen",) and draw(st.booleans())
     prog["closing"] = draw(st.booleans())
+    if failures and mode in ("list", "gen", "write", "write+list") and not prog["lazy_start"] and draw(st.integers(0, 11)) == 0:
+        # error-handling middleware: tries to replace the response it has started; the replacement is refused by the server
+        # (a header it cannot accept), the application catches that and carries on with its original response
+        prog["restart"] = {"when": draw(st.sampled_from(["before_write", "after_write"])), "exc_info": True,
+                           "status": draw(st.sampled_from(["500 Internal Server Error", "503 Oops"])),
+                           "headers": draw(st.sampled_from([[["X-Err", "boom\r\nInjected: 1"]], [["Content-Length", 5]], [["Bad Name", "x"]],
+                                                            [["X-Ok", "v"], ["X-Err", "a\nb"]]])),
+                           "catch": True}
     if failures and draw(st.integers(0, 5)) == 0:
         prog["fail"] = draw(st.sampled_from(["before_start", "after_start", "mid", "mid", "in_close"]))
         prog["fail_k"] = draw(st.integers(0, 3))
